@@ -287,6 +287,29 @@ func pieceValuesExt(c *Ctx, v ssa.Value, seen map[ssa.Value]bool) (map[int64]boo
 			}
 		}
 		return res, len(res) > 0
+	case *ssa.Extract:
+		// one result of a helper of the repository: the values of that result over all its returns
+		call, isCall := x.Tuple.(*ssa.Call)
+		if !isCall {
+			return nil, false
+		}
+		f := call.Call.StaticCallee()
+		if f == nil || f.Blocks == nil || !c.P.IsRepoFunc(f) {
+			return nil, false
+		}
+		res := map[int64]bool{}
+		for _, b := range f.Blocks {
+			if ret, ok := b.Instrs[len(b.Instrs)-1].(*ssa.Return); ok && x.Index < len(ret.Results) {
+				vs, ok := pieceValuesExt(c, ret.Results[x.Index], seen)
+				if !ok {
+					return nil, false
+				}
+				for k := range vs {
+					res[k] = true
+				}
+			}
+		}
+		return res, len(res) > 0
 	case *ssa.UnOp:
 		if x.Op == token.MUL {
 			if fa, ok := x.X.(*ssa.FieldAddr); ok {
